@@ -132,6 +132,10 @@ def main(tier):
     for _ in range(150 if tier == "thorough" else 50):
         parts = [r.choice(("3d6", "d20", "2d10k1", "4d6kh3", "d100", "2d8 + 1", "d1000")) for _i in range(r.randint(1, 3))]
         rl.append(f"rerunresume -,L300000 {r.getrandbits(128):032x} {hx(' + '.join(parts) + r.choice(('', ' + 2', ' tail')))}")
+    # a computed-value literal whose text assigns a name: what one evaluation left in the value's attributes is not in the program
+    for src_ in ("&k = n = (n ?? 0) + d6; k", "&k = (m = (m ?? 0) + 1) + d20; k + k", "func mk() { &k = n = (n ?? 0) + d6; k }; mk() + mk()",
+                 "i = 0; r = []; while i < 3 { i = i + 1; &k = n = (n ?? 0) + d4; r.push(k) }; r"):
+        rl.append(f"rerunresume -,L300000 {r.getrandbits(128):032x} {hx(src_)}")
     for ln, g in run.go_only("rerun-resume", rl, go_timeout=120):
         parts = g.split(" || ")
         run.nontriv(("rerunresume", ln))
